@@ -57,6 +57,51 @@ fn h2<T: Hash>(t: &T) -> u64 {
     h.finish()
 }
 
+/// Crash localisation: every worker thread keeps the input it is about to evaluate in its own 32-byte slot of a
+/// shared file mapping (a plain store, no system call). If the process dies (a signal, a sanitizer abort) the driver
+/// reads the slots and replays each candidate in isolation.
+mod beacon {
+    use std::cell::Cell;
+    use std::sync::atomic::{AtomicPtr, AtomicUsize, Ordering};
+    pub const SLOTS: usize = 64;
+    static BASE: AtomicPtr<u32> = AtomicPtr::new(std::ptr::null_mut());
+    static NEXT: AtomicUsize = AtomicUsize::new(0);
+    thread_local! { static SLOT: Cell<usize> = Cell::new(usize::MAX); }
+
+    pub fn open(path: &str) {
+        use std::os::unix::io::AsRawFd;
+        let f = std::fs::OpenOptions::new().read(true).write(true).create(true).truncate(true).open(path).expect("beacon file");
+        f.set_len((SLOTS * 32) as u64).unwrap();
+        let p = unsafe { libc::mmap(std::ptr::null_mut(), SLOTS * 32, libc::PROT_READ | libc::PROT_WRITE, libc::MAP_SHARED, f.as_raw_fd(), 0) };
+        assert!(p != libc::MAP_FAILED, "beacon mmap");
+        std::mem::forget(f);
+        BASE.store(p as *mut u32, Ordering::SeqCst);
+    }
+
+    /// kind: 3 = c03 value, 14 = c14 value
+    #[inline]
+    pub fn mark(kind: u32, which: u32, key: u32, gen: u32, world: u32) {
+        let base = BASE.load(Ordering::Relaxed);
+        if base.is_null() {
+            return;
+        }
+        let slot = SLOT.with(|s| {
+            if s.get() == usize::MAX {
+                s.set(NEXT.fetch_add(1, Ordering::Relaxed) % SLOTS);
+            }
+            s.get()
+        });
+        unsafe {
+            let p = base.add(slot * 8);
+            std::ptr::write_volatile(p, kind);
+            std::ptr::write_volatile(p.add(1), which);
+            std::ptr::write_volatile(p.add(2), key);
+            std::ptr::write_volatile(p.add(3), gen);
+            std::ptr::write_volatile(p.add(4), world);
+        }
+    }
+}
+
 #[derive(Serialize, Clone, Debug)]
 struct Vio {
     prop: String,
@@ -181,6 +226,7 @@ fn typed_laws<A: Archetype>(ctx: &Ctx, e: EntityAny, with_panics: bool, inp: &In
 }
 
 fn c14_value(ctx: &Ctx, key: u32, gen: u32, with_panics: bool) {
+    beacon::mark(14, 0, key, gen, with_panics as u32);
     count_eval(ctx);
     let inp = Inp { state: "", key, gen, direct_index: 0, archetype: 0 };
     let r = EntityAny::from_raw((key, gen));
@@ -421,6 +467,7 @@ fn run_c14(full: bool, threads: usize, ctx: &Ctx) -> serde_json::Value {
 // ---------------------------------------------------------------------------------------------
 
 struct Fixed {
+    which: usize,
     name: &'static str,
     world: KW,
     /// live handles: bits -> payload of its Ka (Aa, Bb) or Kb (Cc) column
@@ -446,8 +493,8 @@ fn build_state(which: usize) -> Fixed {
         e
     };
     match which {
-        0 => Fixed { name: "empty(cap 4)", world: KW::with_capacity(KWCapacity { aa: 4, bb: 4, cc: 4 }), live },
-        1 => Fixed { name: "capacity 0", world: KW::new(), live },
+        0 => Fixed { which, name: "empty(cap 4)", world: KW::with_capacity(KWCapacity { aa: 4, bb: 4, cc: 4 }), live },
+        1 => Fixed { which, name: "capacity 0", world: KW::new(), live },
         2 => {
             let mut w = KW::with_capacity(KWCapacity { aa: 4, bb: 4, cc: 4 });
             for _ in 0..4 {
@@ -455,7 +502,7 @@ fn build_state(which: usize) -> Fixed {
                 mk(&mut live, &mut w, 7);
                 mk(&mut live, &mut w, 255);
             }
-            Fixed { name: "full(cap 4)", world: w, live }
+            Fixed { which, name: "full(cap 4)", world: w, live }
         }
         _ => {
             // mixed: free positions whose generation equals generations of live handles elsewhere
@@ -473,7 +520,7 @@ fn build_state(which: usize) -> Fixed {
             mk(&mut live, &mut w, 0);
             mk(&mut live, &mut w, 7);
             mk(&mut live, &mut w, 255);
-            Fixed { name: "mixed(free slots with matching generations)", world: w, live }
+            Fixed { which, name: "mixed(free slots with matching generations)", world: w, live }
         }
     }
 }
@@ -517,6 +564,7 @@ where
 }
 
 fn c03_value(ctx: &Ctx, fx: &Fixed, key: u32, gen: u32, world_level: bool) {
+    beacon::mark(3, fx.which as u32, key, gen, world_level as u32);
     count_eval(ctx);
     let inp = Inp { state: fx.name, key, gen, direct_index: 0, archetype: 0 };
     let e = EntityAny::from_raw((key, gen)).unwrap();
@@ -576,6 +624,9 @@ fn main() {
     let threads: usize = arg(&args, "--threads").map(|s| s.parse().unwrap()).unwrap_or(16);
     let full = arg(&args, "--mode").as_deref() == Some("full");
     let t0 = std::time::Instant::now();
+    if let Some(b) = arg(&args, "--beacon") {
+        beacon::open(&b);
+    }
     let detail_t = match args.get(1).map(|s| s.as_str()) {
         Some("c14") => run_c14(full, threads, &ctx),
         Some("c03") => run_c03(full, threads, &ctx),
@@ -586,7 +637,7 @@ fn main() {
         Some("replay-c03") => {
             let which = args[2].parse().unwrap();
             let fx = build_state(which);
-            c03_value(&ctx, &fx, args[3].parse().unwrap(), args[4].parse().unwrap(), true);
+            c03_value(&ctx, &fx, args[3].parse().unwrap(), args[4].parse().unwrap(), args.get(5).map(|s| s != "0").unwrap_or(true));
             serde_json::json!({})
         }
         _ => {
